@@ -1,6 +1,8 @@
 package main
 
 import (
+	"runtime"
+	"strings"
 	"fmt"
 	"reflect"
 	"sort"
@@ -12,6 +14,39 @@ import (
 	"github.com/jcmturner/gokrb5/v8/config"
 	"verif/harness/internal/kdc"
 )
+
+// blockedInClient summarises a goroutine dump: for every goroutine parked on a lock, the gokrb5 frames above it.
+func blockedInClient(dump string) string {
+	var out []string
+	for _, g := range strings.Split(dump, "\n\n") {
+		if !strings.Contains(g, "sync.(*RWMutex)") && !strings.Contains(g, "sync.(*Mutex)") {
+			continue
+		}
+		var frames []string
+		for _, ln := range strings.Split(g, "\n") {
+			if strings.HasPrefix(ln, "github.com/jcmturner/gokrb5/v8/") || strings.HasPrefix(ln, "sync.(*") {
+				f := strings.TrimPrefix(ln, "github.com/jcmturner/gokrb5/v8/")
+				if i := strings.LastIndex(f, "("); i > 0 {
+					f = f[:i]
+				}
+				frames = append(frames, f)
+			}
+		}
+		if len(frames) > 8 {
+			frames = frames[:8]
+		}
+		out = append(out, strings.Join(frames, " < "))
+	}
+	sort.Strings(out)
+	// collapse duplicates
+	var res []string
+	for i, o := range out {
+		if i == 0 || o != out[i-1] {
+			res = append(res, o)
+		}
+	}
+	return strings.Join(res, " || ")
+}
 
 func deepCopyRealms(rs []config.Realm) []config.Realm {
 	out := make([]config.Realm, len(rs))
@@ -44,6 +79,15 @@ func c11(c *Ctx) {
 				k.AddPrincipal(s, "svcpw", 1)
 			}
 			k.RequirePreauth = trial%2 == 0
+			if trial%6 == 4 {
+				// the TGT is always inside the last sixth of its lifetime: every service-ticket request goes
+				// through the session refresh path (renewal when renewable, re-login otherwise)
+				k.Backdate = 50 * time.Minute
+				k.TicketLifetime = 9 * time.Minute
+				if trial%12 == 4 {
+					k.RenewLifetime = time.Hour
+				}
+			}
 			if err := k.Serve(); err != nil {
 				c.Notes = append(c.Notes, err.Error())
 				return
@@ -52,6 +96,13 @@ func c11(c *Ctx) {
 			addrs = append(addrs, k.Addr)
 		}
 		cfg := testConfig(realm, addrs, []int32{18})
+		if trial%6 == 4 {
+			cfg.LibDefaults.Clockskew = time.Hour
+			if trial%12 == 4 {
+				cfg.LibDefaults.RenewLifetime = time.Hour
+			}
+			c.Count("session-refresh-path")
+		}
 		before := deepCopyRealms(cfg.Realms)
 		cl := client.NewWithPassword("testuser1", realm, "passwordvalue", cfg, client.DisablePAFXFAST(true))
 		if err := cl.Login(); err != nil {
@@ -122,7 +173,12 @@ func c11(c *Ctx) {
 		case <-time.After(40 * time.Second):
 			deadlocked = true
 		}
-		c.Check(!deadlocked, "concurrent use does not deadlock", "deadlock", fmt.Sprintf("trial %d with %d goroutines did not finish in 40 s", trial, ng), nil)
+		detail := ""
+		if deadlocked {
+			buf := make([]byte, 1<<20)
+			detail = blockedInClient(string(buf[:runtime.Stack(buf, true)]))
+		}
+		c.Check(!deadlocked, "concurrent use does not deadlock", "deadlock", fmt.Sprintf("trial %d with %d goroutines did not finish in 40 s; %s", trial, ng, detail), nil)
 		if deadlocked {
 			return
 		}
